@@ -212,10 +212,14 @@ def o15(ctx):
             ctx.finding(f"cryomotl.Motl.{name}", "dispatch on 'emmotl'", f"Motl.{name} must map 'emmotl' to EmMotl", None, mm)
 
 
-def obligations():
+def _obligations():
     return [
         Obligation("O1.1", "the array handed to emfile.write is in EM field order for every column order of the table", o11, floor=8),
         Obligation("O1.2", "reader names the file columns with the canonical table, guards 20 columns, keeps the data layout", o12, floor=4),
         Obligation("O1.3", "fillna(0), reshape (1,N,20), float32, fresh header and overwrite on the writer path", o13, floor=5),
         Obligation("O1.5", "Motl.write_out / Motl.load dispatch tables agree and map 'emmotl' to EmMotl", o15, floor=6),
     ]
+
+
+def obligations():
+    return _obligations() + [effects_obligation("C01")]
